@@ -130,22 +130,15 @@ func (te *tableEngine) calcLeavePlayers(status TableStateStatus, leavePlayerIDs 
 	for _, playerIdx := range te.table.State.GamePlayerIndexes {
 		currentGamePlayerData[playerIdx] = te.table.State.PlayerStates[playerIdx].PlayerID
 	}
-	gameStatuses := []TableStateStatus{
-		TableStateStatus_TableGameOpened,
-		TableStateStatus_TableGamePlaying,
-		TableStateStatus_TableGameSettled,
-	}
+	// whatever the table status: a hand stopped by a pause or a close keeps its entries until it is settled, and they
+	// must go on denoting the same players
 	newGamePlayerIndexes := make([]int, 0)
-	if funk.Contains(gameStatuses, status) {
-		for _, currentPlayerIdx := range te.table.State.GamePlayerIndexes {
-			playerID := currentGamePlayerData[currentPlayerIdx]
-			// sync newPlayerData player idx to newGamePlayerIndexes
-			if newPlayerIdx, exist := newPlayerData[playerID]; exist {
-				newGamePlayerIndexes = append(newGamePlayerIndexes, newPlayerIdx)
-			}
+	for _, currentPlayerIdx := range te.table.State.GamePlayerIndexes {
+		playerID := currentGamePlayerData[currentPlayerIdx]
+		// sync newPlayerData player idx to newGamePlayerIndexes
+		if newPlayerIdx, exist := newPlayerData[playerID]; exist {
+			newGamePlayerIndexes = append(newGamePlayerIndexes, newPlayerIdx)
 		}
-	} else {
-		newGamePlayerIndexes = te.table.State.GamePlayerIndexes
 	}
 
 	return newPlayerStates, newSeatMap, newGamePlayerIndexes
